@@ -110,6 +110,7 @@ fn classify(t: Triple, n: u64, complete: u64, classes: &BTreeMap<String, (u64, S
 fn main() {
     let mut run = vcommon::Run::from_args("C02", "exploration");
     vcommon::install_quiet_panic_hook();
+    tune_allocator();
 
     if let Some(d) = run.replay_detail() {
         let sig = Sig::from_json(&d["signature"]).unwrap_or_else(|e| vcommon::machinery(&format!("bad replay signature: {e}")));
